@@ -41,7 +41,12 @@ class C19(Prop):
   def strategy(self, tier):
     from hypothesis import strategies as st
     base = spytrace.history(tier)
-    return st.one_of(base, base, base, base, base, base, base.map(spytrace.at_capacity))
+    def two_deferred(case):
+      # events of two different signals are waiting in the defer list when the history begins: a
+      # recall made by a handler names the OLDEST one in its RECALL line
+      sigs = case["spec"]["sigs"]
+      return dict(case, ops=[["defer", sigs[-1]], ["defer", sigs[0]]] + list(case["ops"]))
+    return st.one_of(base, base, base, base, base, base.map(two_deferred), base.map(spytrace.at_capacity))
 
   def check(self, case, stats):
     run = spytrace.Run(case)
